@@ -37,17 +37,19 @@ structure Obj (K : Type) where
   base : Nat            -- index of the owner whose store is viewed (self for owners)
   recipe : List VOp     -- view handles: the view expression on `base`
   rkind : Kind          -- static type of `recipe` on base (unused for owners)
-  nviews : Nat          -- how many view handles look at this owner
   locked : Bool
   mag : Nat             -- generator's bound on |entry| (also covers the harness-only float/complex variants)
   born1 : Bool          -- a RowVector_ constructed with exactly one element (its helper is column-oriented: finding)
   rowOrder : Bool       -- a Matrix_ constructed with exactly one row (≠ 1 column): row-ordered storage
 
-def Obj.layout {K} (o : Obj K) : AView :=
-  match o.kind with
-  | .mat => if o.rowOrder then AView.ownerMatrixRowOrder o.nr o.nc else AView.ownerMatrix o.nr o.nc
-  | .vec => AView.ownerVector o.nr
-  | .row => AView.ownerRowVector o.nc
+/-- flat-store layout of an owner handle of the given class, storage order and shape -/
+def layoutOf (k : Kind) (rowOrder : Bool) (nr nc : Nat) : AView :=
+  match k with
+  | .mat => if rowOrder then AView.ownerMatrixRowOrder nr nc else AView.ownerMatrix nr nc
+  | .vec => AView.ownerVector nr
+  | .row => AView.ownerRowVector nc
+
+def Obj.layout {K} (o : Obj K) : AView := layoutOf o.kind o.rowOrder o.nr o.nc
 
 def kindOfIdx (i : Nat) : Kind := if i < 4 then .mat else if i < 6 then .vec else .row
 def nameOfIdx (i : Nat) : String :=
@@ -55,11 +57,15 @@ def nameOfIdx (i : Nat) : String :=
 
 def emptyObj (K : Type) (i : Nat) : Obj K :=
   match kindOfIdx i with
-  | .mat => ⟨.mat, true, 0, 0, #[], i, [], .mat, 0, false, 0, false, false⟩
-  | .vec => ⟨.vec, true, 0, 1, #[], i, [], .vec, 0, false, 0, false, false⟩
-  | .row => ⟨.row, true, 1, 0, #[], i, [], .row, 0, false, 0, false, false⟩
+  | .mat => ⟨.mat, true, 0, 0, #[], i, [], .mat, false, 0, false, false⟩
+  | .vec => ⟨.vec, true, 0, 1, #[], i, [], .vec, false, 0, false, false⟩
+  | .row => ⟨.row, true, 1, 0, #[], i, [], .row, false, 0, false, false⟩
 
 abbrev St (K : Type) := Array (Obj K)
+
+/-- how many view handles currently look at the data of handle `o` (computed, not book-kept) -/
+def viewCount {K : Type} (st : Array (Obj K)) (o : Nat) : Nat :=
+  (st.toList.filter fun x => !x.isOwner && x.base == o).length
 def initSt (K : Type) : St K := (Array.range 8).map (emptyObj K)
 
 /-- one step of a view expression as written in the op line; `sub i m` is `v(i,m)` on a Vector / RowVector -/
@@ -116,7 +122,7 @@ def resolveExpr (st : St K) (e : Expr) : Option Res :=
       | none => none
       | some (l, k) =>
         let ops := (if o.isOwner then [] else o.recipe) ++ l
-        some ⟨b, ops, k, resolve ob.layout ops, legalAll ops (ob.nr, ob.nc) && ob.isOwner⟩
+        some ⟨b, ops, k, resolve ob.layout ops, legalAll ops ob.layout.shape && ob.isOwner⟩
 
 /-- does an `index` step act on a source that is not contiguous in memory (stride ≠ 1 with more than one
 element, or an already indexed source)?  These are the inputs of the known finding. -/
@@ -217,22 +223,19 @@ def shapeOK (k : Kind) (nr nc : Nat) : Bool :=
   | .vec => nc == 1
   | .row => nr == 1
 
+/-- the flat store of an owner of the given class / storage order holding the dense value `d` -/
+def ownerStore (k : Kind) (rowOrder : Bool) (d : Dense K) : Array K :=
+  let lay := layoutOf k rowOrder d.nr d.nc
+  writeView (Array.replicate (lay.nr * lay.nc) 0) (resolve lay []) d.el
+
 /-- replace the contents of owner `o` by a dense value (reallocating): used by `=` on owners and producers -/
 def assignOwner (st : St K) (o : Nat) (d : Dense K) (mag : Nat) : St K :=
   match st[o]? with
   | none => st
-  | some ob =>
-    let lay : AView := match ob.kind with
-      | .mat => if ob.rowOrder then AView.ownerMatrixRowOrder d.nr d.nc else AView.ownerMatrix d.nr d.nc
-      | .vec => AView.ownerVector d.nr
-      | .row => AView.ownerRowVector d.nc
-    let rv := resolve lay []
-    let s0 : Array K := Array.replicate (d.nr * d.nc) 0
-    let s1 := writeView s0 rv d.el
-    st.set! o { ob with nr := d.nr, nc := d.nc, store := s1, mag := mag }
+  | some ob => st.set! o { ob with nr := d.nr, nc := d.nc, store := ownerStore ob.kind ob.rowOrder d, mag := mag }
 
 /-- may owner `o` be given shape (nr,nc) by reallocation? `none` = fine, `some cls` = documented exception -/
-def reshapeCheck (ob : Obj K) (nr nc : Nat) : Option (Option String) :=
+def reshapeCheck (nviews : Nat) (ob : Obj K) (nr nc : Nat) : Option (Option String) :=
   if ob.nr == nr && ob.nc == nc then some none
   else if !ob.isOwner then some (some "OperationNotAllowedOnView")
   else if ob.locked then some (some "Cant")
@@ -240,7 +243,7 @@ def reshapeCheck (ob : Obj K) (nr nc : Nat) : Option (Option String) :=
   -- mask and would leave an m×0 "vector" whose elements cannot be addressed: never generated
   else if (ob.kind == .vec && nc == 0) || (ob.kind == .row && nr == 0) then none
   else if !shapeOK ob.kind nr nc then some (some "Cant")
-  else if ob.nviews != 0 then none          -- would leave dangling views: illegal
+  else if nviews != 0 then none             -- would leave dangling views: illegal
   else some none
 
 /-- write a dense value through a resolved destination -/
@@ -297,7 +300,7 @@ def produce (st : St K) (o : Nat) (d : Dense K) (mag : Nat) (srcOwners : List Na
         | none => .illegal
       else .illegal
     else
-    match reshapeCheck ob d.nr d.nc with
+    match reshapeCheck (viewCount st o) ob d.nr d.nc with
     | none => .illegal
     | some (some cls) => .exc cls
     | some none => .ok (assignOwner st o d mag) [] [o]
@@ -310,24 +313,21 @@ def step [Div K] [OfNat K 1] (sc : Scal K) (st : St K) : Op K → Outcome K
     match st[o]? with
     | none => .illegal
     | some ob =>
-      if !shapeOK ob.kind nr nc || vals.size != nr * nc then .illegal else
-      if ob.isOwner && ob.nviews != 0 then .illegal else
+      let k := kindOfIdx o
+      if !shapeOK k nr nc || vals.size != nr * nc then .illegal else
+      if ob.isOwner && viewCount st o != 0 then .illegal else
       -- the handle is destroyed and constructed afresh
-      let st1 := if ob.isOwner then st else
-        match st[ob.base]? with
-        | some bb => st.set! ob.base { bb with nviews := bb.nviews - 1 }
-        | none => st
       let m := vals.foldl (fun acc x => max acc (sc.absNat x + 3)) 0
-      let b1 : Bool := ob.kind == .row && nc == 1
-      let ro : Bool := ob.kind == .mat && nr == 1 && nc != 1
-      let fresh : Obj K := { emptyObj K o with nr := nr, nc := nc, born1 := b1, rowOrder := ro }
-      let st2 := st1.set! o fresh
-      .ok (assignOwner st2 o ⟨nr, nc, fun i j => vals.getD (i * nc + j) 0⟩ m) [] [o]
+      let b1 : Bool := k == .row && nc == 1
+      let ro : Bool := k == .mat && nr == 1 && nc != 1
+      let d : Dense K := ⟨nr, nc, fun i j => vals.getD (i * nc + j) 0⟩
+      let fresh : Obj K := ⟨k, true, nr, nc, ownerStore k ro d, o, [], k, false, m, b1, ro⟩
+      .ok (st.set! o fresh) [] [o]
   | .resize o m n v =>
     match st[o]? with
     | none => .illegal
     | some ob =>
-      match reshapeCheck ob m n with
+      match reshapeCheck (viewCount st o) ob m n with
       | none => .illegal
       | some (some cls) => .exc cls
       | some none =>
@@ -343,7 +343,7 @@ def step [Div K] [OfNat K 1] (sc : Scal K) (st : St K) : Op K → Outcome K
     match st[o]? with
     | none => .illegal
     | some ob =>
-      match reshapeCheck ob m n with
+      match reshapeCheck (viewCount st o) ob m n with
       | none => .illegal
       | some (some cls) => .exc cls
       | some none =>
@@ -355,12 +355,8 @@ def step [Div K] [OfNat K 1] (sc : Scal K) (st : St K) : Op K → Outcome K
     | none => .illegal
     | some ob =>
       if ob.isOwner then
-        if ob.nviews != 0 || ob.locked then .illegal else .ok (st.set! o (emptyObj K o)) [] [o]
-      else
-        let st1 := match st[ob.base]? with
-          | some bb => st.set! ob.base { bb with nviews := bb.nviews - 1 }
-          | none => st
-        .ok (st1.set! o (emptyObj K o)) [] [o]
+        if viewCount st o != 0 || ob.locked then .illegal else .ok (st.set! o (emptyObj K o)) [] [o]
+      else .ok (st.set! o (emptyObj K o)) [] [o]
   | .lock o =>
     match st[o]? with
     | some ob => if ob.isOwner then .ok (st.set! o { ob with locked := true }) [] [o] else .illegal
@@ -483,17 +479,9 @@ def step [Div K] [OfNat K 1] (sc : Scal K) (st : St K) : Op K → Outcome K
       -- a view with an un-negated element type (for complex elements an odd number of Hermitian transposes changes the
       -- element type too; the harness's complex variant then only follows the reference) and regular spacing
       if kindOfIdx o != .mat || !r.legal || r.owner == o || negAll r.ops || hasIndex r.ops then .illegal else
-      if ob.isOwner && (ob.nviews != 0 || ob.locked) then .illegal else
-      let st1 := if ob.isOwner then st else
-        match st[ob.base]? with
-        | some bb => st.set! ob.base { bb with nviews := bb.nviews - 1 }
-        | none => st
-      match st1[r.owner]? with
-      | some bb =>
-        let st2 := st1.set! r.owner { bb with nviews := bb.nviews + 1 }
-        let h : Obj K := ⟨.mat, false, r.view.nr, r.view.nc, #[], r.owner, r.ops, r.kind, 0, false, 0, false, false⟩
-        .ok (st2.set! o h) [] [r.owner, o]
-      | none => .illegal
+      if ob.isOwner && (viewCount st o != 0 || ob.locked) then .illegal else
+      let h : Obj K := ⟨.mat, false, r.view.nr, r.view.nc, #[], r.owner, r.ops, r.kind, false, 0, false, false⟩
+      .ok (st.set! o h) [] [r.owner, o]
     | _, _ => .illegal
   | .sdiv d s =>
     -- `/= s` multiplies by `1/s`: exact for s = ±1, ±2, ±4; only generated when every viewed entry is divisible
